@@ -30,8 +30,33 @@
 #include <xercesc/validators/schema/identity/IC_Field.hpp>
 #include <xercesc/validators/schema/identity/IC_KeyRef.hpp>
 #include <xercesc/validators/schema/identity/ValueStoreCache.hpp>
+#include <xercesc/util/NumberFormatException.hpp>
+#include <xercesc/util/XMLDouble.hpp>
+#include <xercesc/util/XMLFloat.hpp>
 
 namespace XERCES_CPP_NAMESPACE {
+
+// ---------------------------------------------------------------------------
+//  Local methods
+// ---------------------------------------------------------------------------
+static XMLSize_t hashFloatingPoint(const XMLAbstractDoubleFloat& number, XMLSize_t mod)
+{
+    // INF, -INF and NaN
+    if (number.getType() != XMLAbstractDoubleFloat::Normal)
+        return ((XMLSize_t) number.getType()) % mod;
+
+    // -0 and 0 compare as equal
+    double value = number.getValue();
+    if (value == 0.0)
+        value = 0.0;
+
+    XMLSize_t hashVal = 0;
+    const unsigned char* bytes = (const unsigned char*) &value;
+    for (XMLSize_t i=0; i<sizeof(value); i++)
+        hashVal = hashVal * 31 + bytes[i];
+
+    return hashVal % mod;
+}
 
 //
 // ---------------------------------------------------------------------------
@@ -49,6 +74,27 @@ XMLSize_t ICValueHasher::getHashVal(const void* key, XMLSize_t mod) const
         while(dv && dv->getBaseValidator())
             dv = dv->getBaseValidator();
         const XMLCh* const val = valueMap->getValueAt(j);
+
+        // The canonical representation keeps more digits than the value
+        // has, it differs for 1 and 1.00000001 which are one float: hash
+        // the value itself.
+        if (dv && val && (dv->getType() == DatatypeValidator::Float ||
+                          dv->getType() == DatatypeValidator::Double))
+        {
+            try
+            {
+                if (dv->getType() == DatatypeValidator::Float)
+                    hashVal += hashFloatingPoint(XMLFloat(val, fMemoryManager), mod);
+                else
+                    hashVal += hashFloatingPoint(XMLDouble(val, fMemoryManager), mod);
+                continue;
+            }
+            catch (const NumberFormatException&)
+            {
+                // not a number, hash it like a string
+            }
+        }
+
         const XMLCh* canonVal = (dv && val)?dv->getCanonicalRepresentation(val, fMemoryManager):0;
         if(canonVal)
         {
